@@ -437,7 +437,7 @@ def run(ctx, replay_path):
     ctx.assumptions += [
         "every behaviour runs in a fresh worker process (testing mode); byte-identical recordings of a shared prefix are merged",
         "text is projected to Unicode code points (stray UTF-8 bytes = -1); case folding modelled for ASCII and Latin-1 letters, "
-        "the other characters used in titles are caseless; titles need no JSON escape",
+        "the other characters used in titles are caseless (titles include ones that need JSON escapes - backslash, double quote, TAB, U+2028, markup - and the empty title)",
         "treated-as targets are Panic..Trace; gating of levels registered without a treated-as level is C01's subject and not compared here",
         "RegWithPrintToErrorDevice() without arguments counts as a request (documented usage); several booleans: the last one wins",
         "the package default logger is set to Off and redirected to recorders (ParseLevel logs its failures there)",
